@@ -1,6 +1,7 @@
 //! Executor for multi-run histories of a file-writing logger: operations on a live logger
 //! plus stop/restart, with a callback after every operation for the step oracle.
 use crate::env::Env;
+use std::time::Duration;
 use crate::lg::{self, Cfg};
 use flexi_logger::LoggerHandle;
 use log::Log;
@@ -19,6 +20,8 @@ pub enum HOp {
     Restart(bool),
     /// reopen_output()
     Reopen,
+    /// reset_flw() with the configuration the logger was built with (same file / family)
+    ResetSame,
 }
 
 pub struct Live {
@@ -108,6 +111,32 @@ impl<'a> Hist<'a> {
                     .handle
                     .reopen_output()
                     .map_err(|e| StepErr::Op(format!("reopen_output: {e} ({e:?})")))?;
+            }
+            HOp::ResetSame => {
+                // (the Logger strips the flush interval from the write mode of its file writer)
+                let b = self.cfg.flw_builder(&self.env.dir);
+                use flexi_logger::WriteMode as WM;
+                let b = match self.cfg.mode.write_mode() {
+                    WM::BufferAndFlush => b.write_mode(WM::BufferDontFlush),
+                    WM::BufferAndFlushWith(c, _) => b.write_mode(WM::BufferDontFlushWith(c)),
+                    WM::Async => b.write_mode(WM::AsyncWith {
+                        pool_capa: flexi_logger::DEFAULT_POOL_CAPA,
+                        message_capa: flexi_logger::DEFAULT_MESSAGE_CAPA,
+                        flush_interval: Duration::ZERO,
+                    }),
+                    WM::AsyncWith { pool_capa, message_capa, .. } => b.write_mode(WM::AsyncWith {
+                        pool_capa,
+                        message_capa,
+                        flush_interval: Duration::ZERO,
+                    }),
+                    _ => b,
+                };
+                self.live
+                    .as_ref()
+                    .unwrap()
+                    .handle
+                    .reset_flw(&b)
+                    .map_err(|e| StepErr::Op(format!("reset_flw: {e} ({e:?})")))?;
             }
             HOp::T(s) => self.env.clock.advance_secs(s),
             HOp::Restart(append) => {
